@@ -1,13 +1,4 @@
-mod coherent;
-mod core;
-mod engine;
-mod gen;
-mod graphcase;
-mod oracle;
-mod xmlgen;
-mod model;
-mod props;
-
+use gverif::{engine, props};
 use engine::{Opts, Tier};
 use std::path::PathBuf;
 
@@ -16,6 +7,10 @@ fn main() {
     if args.is_empty() {
         eprintln!("usage: gverif <ID> [--tier quick|thorough] [--replay FILE] [--strict] [--scale F] [--no-evidence]");
         std::process::exit(2);
+    }
+    if args[0] == "--emit-corpus" {
+        gverif::fuzz::emit_corpus(&PathBuf::from(args.get(1).cloned().unwrap_or_else(|| "/verif/fuzz/corpus".to_string())));
+        return;
     }
     if args[0] == "--worker" {
         match args.get(1).map(|s| s.as_str()) {
